@@ -1,6 +1,6 @@
 """C06 - generalized Rush-Larsen step follows the exponential-integrator formula, guarded."""
 from .. import core, schemecorpus
-from . import structural
+from . import structural, tracesleg
 from .c01 import shape_of
 
 
@@ -41,6 +41,9 @@ def main(chk: core.Check, replay):
         return core.replay_generic(chk, replay)
     run_scheme_corpus(chk, "C06", {"generalized_rush_larsen", "generate"})
     structural.run(chk, "C06")
+    # emitted generalized Rush-Larsen code of the repository's models: every exponential update sits behind
+    # |linearisation| > delta with the delta that was passed (three different ones), strictly, Euler otherwise
+    tracesleg.run(chk, "C06", schemes=("generalized_rush_larsen",))
 
 
 if __name__ == "__main__":
